@@ -166,8 +166,8 @@ class Folder:
         raise Unfoldable("complex target")
 
     def _num(self, v):
-        if self.exact and isinstance(v, (int, float)) and not isinstance(v, bool):
-            return Fraction(v) if isinstance(v, int) else Fraction(v).limit_denominator(10 ** 9)
+        if self.exact and isinstance(v, float):
+            return Fraction(v).limit_denominator(10 ** 9)
         return v
 
     def eval(self, node, mod, env, cls=None):
@@ -234,6 +234,9 @@ class Folder:
                 raise Unfoldable("binop on symbol")
             if isinstance(node.op, ast.Mod) and isinstance(l, str):
                 return l % r
+            if self.exact and isinstance(node.op, ast.Div) and isinstance(l, (int, Fraction)) and isinstance(r, (int, Fraction)) \
+                    and not isinstance(l, bool) and r != 0:
+                return Fraction(l) / Fraction(r)
             try:
                 return op(l, r)
             except Exception as e:
